@@ -254,8 +254,8 @@ func newParserDom(p *Program) *parserDom {
 		}
 		// a function that reads tokens through a helper outside the recursive core (a cursor's expect/advance) parses
 		// something itself: not a wrapper
-		if only && !d.readsTokensOutsideCore(m, pkg) {
-			d.wrapper[m] = true
+		if only {
+			d.wrapper[m] = true // role inference (inferRoles) takes a function out of this set again when it plays a role
 		}
 	}
 	// precedence: func(lexer.TokenType) int in package parser
